@@ -67,6 +67,22 @@ pub struct C17;
 struct Dummy;
 impl Module for Dummy {}
 
+/// A module that configures itself from its own properties while the node is being created (Module::stack runs inside
+/// `Sim::node`): it looks up the given keys and records what it saw.
+struct Peeker {
+    keys: Vec<String>,
+    seen: std::rc::Rc<std::cell::RefCell<Vec<(String, Option<Value>)>>>,
+}
+impl Module for Peeker {
+    fn stack(&self, stack: des::net::processing::ProcessingStack) -> des::net::processing::ProcessingStack {
+        for k in &self.keys {
+            let v = current().prop_raw(k).as_value();
+            self.seen.borrow_mut().push((k.clone(), v));
+        }
+        stack
+    }
+}
+
 fn name(i: u8) -> &'static str {
     NAMES[i as usize % NAMES.len()]
 }
@@ -240,16 +256,29 @@ pub fn run_case(case: &Case) -> Result<(bool, Vec<&'static str>, bool), Failure>
         captured.push(props);
     }
     // through the simulation builder, both include orders
-    for order in 0..2 {
+    let mut peeked = false;
+    for order in 0..3 {
         let mut pretyped: Vec<(usize, String)> = Vec::new();
-        let what = if order == 0 { "include_cfg before node()" } else { "node() before include_cfg" };
+        let what = match order {
+            0 => "include_cfg before node()",
+            1 => "node() before include_cfg",
+            _ => "include_cfg before node(), the module looks at its properties while it is created",
+        };
         let mut sim = Sim::new(());
+        let seen: Vec<std::rc::Rc<std::cell::RefCell<Vec<(String, Option<Value>)>>>> = mods.iter().map(|_| Default::default()).collect();
         let r = catch(|| {
-            if order == 0 {
+            if order != 1 {
                 sim.include_cfg(&text);
             }
-            for path in &mods {
-                sim.node(path.join("."), Dummy);
+            for (mi, path) in mods.iter().enumerate() {
+                if order == 2 && mi % 3 != 2 {
+                    // every addressed key except each third one, plus a key nobody addresses
+                    let mut keys: Vec<String> = expected_for(path, &entries).keys().enumerate().filter(|(i, _)| i % 3 != 1).map(|(_, k)| k.clone()).collect();
+                    keys.push("not-addressed".to_string());
+                    sim.node(path.join("."), Peeker { keys, seen: seen[mi].clone() });
+                } else {
+                    sim.node(path.join("."), Dummy);
+                }
             }
             if order == 1 {
                 // a property that was typed (written) before the late include keeps type and value
@@ -298,7 +327,30 @@ pub fn run_case(case: &Case) -> Result<(bool, Vec<&'static str>, bool), Failure>
             if res.is_err() {
                 break;
             }
-            let keys = m.props_keys();
+            for (k, v) in seen[mi].borrow().iter() {
+                let ok = match want.get(k) {
+                    Some(vals) => v.as_ref().is_some_and(|v| vals.contains(v)),
+                    None => v.is_none(),
+                };
+                if !ok {
+                    res = Err(Failure::new(
+                        "value-during-creation",
+                        format!(
+                            "{what}: module '{}' saw property '{k}' = {v:?} while it was created, the matching entries carry {:?}\nconfig:\n{text}",
+                            path.join("."),
+                            want.get(k)
+                        ),
+                    ));
+                }
+            }
+            if res.is_err() {
+                break;
+            }
+            if !seen[mi].borrow().is_empty() {
+                peeked = true;
+            }
+            // a key that was merely looked up (and has no entry) is not a received property
+            let keys: Vec<String> = m.props_keys().into_iter().filter(|k| !(k == "not-addressed" && m.prop_raw(k).as_value().is_none())).collect();
             res = check_props(what, path, keys, &mut |k| m.prop_raw(k).as_value(), &want)
                 .map_err(|f| Failure::new(f.sig, format!("{}\nconfig:\n{text}", f.msg)));
             if res.is_err() {
@@ -368,6 +420,9 @@ pub fn run_case(case: &Case) -> Result<(bool, Vec<&'static str>, bool), Failure>
     }
     if entries.iter().any(|(c, _)| c.iter().filter(|x| *x == "<any>").count() >= 2) {
         labels.push("two-wildcards");
+    }
+    if peeked {
+        labels.push("module-reads-properties-during-creation");
     }
     if typed_nt {
         labels.push("typed-mismatch-after-typed-read");
